@@ -44,6 +44,9 @@ class HarnessError(Exception):
 
 
 def setup_paths():
+    import logging
+
+    logging.getLogger("bldfm").setLevel(logging.ERROR)
     if SRC not in sys.path[:1]:
         sys.path.insert(0, SRC)
     if VERIF not in sys.path:
